@@ -2070,6 +2070,11 @@ def _case_hist(case, acc):
                 acc.count('obs:errpath-values-after-fault')
             worst = [(n, _relerr(a['values'][n], ref_on[n])) for n in ref_on]
             worst = [(n, e) for n, e in worst if e > HIST_TOL_VAL]
+            if worst and s.get('cycle'):
+                # the cycle is solved to an ABSOLUTE residual <= 1e-10 (cond <= 2), from a start that differs between
+                # the twins after a fault; variables downstream of it carry that error times the downstream gains (safety factor 25)
+                worst = [(n, e) for n, e in worst
+                         if np.max(np.abs(np.asarray(a['values'][n], float) - np.asarray(ref_on[n], float))) > 5e-9]
             if worst:
                 n, e = max(worst, key=lambda t: t[1])
                 bad.append(('stale-outputs-after-run_model', 'step %d: %d variable(s) are not the model\'s values at '
